@@ -99,6 +99,14 @@ func (lrw *limitedResponseWriter) WriteHeader(statusCode int) {
 	if lrw.wroteHeader {
 		return
 	}
+	// net/http panics on a status outside 100..999 (a backend can send "HTTP/1.1 042"). Let it do so
+	// now, on the handler's goroutine, where the server recovers it: recorded and delivered later, the
+	// panic can hit the reverse proxy's flush timer goroutine, which nothing recovers
+	if statusCode < 100 || statusCode > 999 {
+		lrw.wroteHeader = true
+		lrw.ResponseWriter.WriteHeader(statusCode)
+		return
+	}
 	// Just record the status code, don't write it yet
 	lrw.statusCode = statusCode
 }
